@@ -9,6 +9,8 @@ driven through complete programs over the public API
     G(ref, a, side)  env.generative_step(<kept state>, a): ref = cur (env.current_state), K0 (the state object
                  returned by the first reset), prev (the state object before the last step)
     I            env.generate_initial_state()
+    C            the program continues on copy.deepcopy(env) (skipped where copying is unsupported)
+    V            observers: render_obs("ansi"), render_state("ansi", <current state as ndarray>), then gc.collect()
     U(v)         env.step(<parameter vector that names no defined action>)   (parameterised action mode only)
 
 and EVERY result of every operation is compared with a reference table: the complete state graph of the scenario
@@ -56,6 +58,8 @@ ASPECT_PROPS = {
     "step_vs_table": ["C13", "C14"],              # any difference at all: result depends on the object's history
     "initial_state_helper": ["C04"],
     "monotonicity": ["C04"],
+    "copy": ["C13"],
+    "observer_consumed_randomness": ["C14"],
     "exception": ["C13"],
     "action_argument_modified": ["C12", "C13"],
 }
@@ -85,6 +89,8 @@ class Mode:
 MODES = {
     "po": Mode("po"), "fo": Mode("fo", fully_obs=True), "po2d": Mode("po2d", flat_obs=False),
     "param": Mode("param", flat_actions=False),
+    # flat environment driven with Action OBJECTS that are instances of user-defined subclasses of the stock classes
+    "sub": Mode("sub"),
 }
 
 
@@ -178,6 +184,13 @@ class Runner:
         self.args = list(range(len(table.actions) - 1)) + [None]
         if mode.flat_actions:
             self.args[-1] = table.actions[-1]                   # the no-op is passed as an Action object
+            if mode.name == "sub":
+                import copy as _copy
+                own = list(self.env.action_space.actions)
+                for i, a in enumerate(own):
+                    b = _copy.copy(a)
+                    b.__class__ = type("User" + type(a).__name__, (type(a),), {})
+                    self.args[i] = b
         else:
             from .explore import param_vector, param_expressible
             ok_e, ok_p = param_expressible(table.spec)
@@ -304,11 +317,45 @@ class Runner:
                     if asp:
                         asp.append("step_vs_table")
                     if env.current_state is not c_obj or c_obj.tensor.tobytes() != c_b or env.last_obs is not l_obj \
-                            or l_obj.tensor.tobytes() != l_b or env.steps != n0 or st.tensor.tobytes() != rk:
+                            or l_obj.tensor.tobytes() != l_b or env.steps != n0 or st.tensor.tobytes() != rk \
+                            or s2 is st or np.shares_memory(s2.tensor, st.tensor):
                         asp.append("purity")
                     if asp:
                         return self._disc(prog, i, asp, {"success": bool(info["success"]), "expected_success": exp[5],
                                                           "reward": float(r), "expected_reward": exp[2]})
+                elif kind == "C":
+                    # the program goes on with a deep copy of the environment (a snapshot for look-ahead); where copying
+                    # is not supported at all the operation is skipped - a copy that exists is an environment object
+                    import copy as _copy
+                    try:
+                        clone = _copy.deepcopy(env)
+                    except Exception:
+                        clone = None
+                    if clone is not None:
+                        if clone.current_state.tensor.tobytes() != env.current_state.tensor.tobytes() or clone.steps != env.steps:
+                            return self._disc(prog, i, ["copy"], {"steps": int(clone.steps)})
+                        self.env = env = clone
+                        if "K0" in kept:
+                            kept = {"K0": kept["K0"]}
+                elif kind == "V":
+                    # observers: the readable renderings of the current observation and of the current state GIVEN AS AN
+                    # ARRAY (the documented ndarray form); then a garbage collection. Nothing may change.
+                    import contextlib, io, gc
+                    c_obj, c_b = env.current_state, env.current_state.tensor.tobytes()
+                    l_obj, l_b, n0 = env.last_obs, env.last_obs.tensor.tobytes(), env.steps
+                    rng0 = np.random.get_state()[1].tobytes()
+                    with contextlib.redirect_stdout(io.StringIO()):
+                        env.render_obs("ansi")
+                        env.render_state("ansi", env.current_state.numpy())
+                    gc.collect()
+                    asp = []
+                    if env.current_state is not c_obj or c_obj.tensor.tobytes() != c_b or env.last_obs is not l_obj \
+                            or l_obj.tensor.tobytes() != l_b or env.steps != n0:
+                        asp.append("purity")
+                    if np.random.get_state()[1].tobytes() != rng0:
+                        asp.append("observer_consumed_randomness")
+                    if asp:
+                        return self._disc(prog, i, asp, {})
                 elif kind == "I":
                     c_obj, c_b = env.current_state, env.current_state.tensor.tobytes()
                     l_obj, l_b, n0 = env.last_obs, env.last_obs.tensor.tobytes(), env.steps
@@ -413,7 +460,7 @@ def perturbation_groups(t, b, mode):
                 X.append(("S", a, side))
                 for ref in b["refs"]:
                     X.append(("G", ref, a, side))
-        X += [("R",), ("I",)]
+        X += [("R",), ("I",), ("C",), ("V",)]
         ext = {a for a, _ in t.succ[k]}
         for x in X:
             xa = x[1] if x[0] == "S" else (x[2] if x[0] == "G" else None)
@@ -555,12 +602,14 @@ def run(tier, mode_names=("po",), want_props=None):
         per[k]["operations"] += r["ops"]
         per[k]["states"] = r["states"]
         per[k]["bounds"] = r["bounds"]
+    if not disc and (sum(r["programs"] for r in results) < 1000 or any(v.get("states", 0) < 4 for v in per.values())):
+        raise HarnessError("vacuous API-sequence exploration (hardly any state / route to drive)")
     cov = {"api_programs": sum(r["programs"] for r in results), "api_operations": sum(r["ops"] for r in results),
            "api_per_scenario_mode": dict(per), "api_wall_s": round(time.time() - t0, 1)}
     return cov, disc
 
 
-MODES_FOR = {"C06": ("po", "param"), "C08": ("po", "fo"), "C12": ("po", "param"), "C13": ("po", "fo")}
+MODES_FOR = {"C06": ("po", "param"), "C08": ("po", "fo", "sub"), "C12": ("po", "param"), "C13": ("po", "fo")}
 
 
 def check_part(pid, tier):
@@ -586,7 +635,7 @@ def check_part(pid, tier):
         return cov, out
     vs = violations_for(pid, disc)
     if pid == "C14":
-        vs = [v for v in vs if v["operation"][0] in ("S", "R", "U")]
+        vs = [v for v in vs if v["operation"][0] in ("S", "R", "U", "V")]
     return cov, vs
 
 
